@@ -277,11 +277,12 @@ Section ABF.
 
   (* ---- script entry points `cv bias <name> bin | bincount | binnum` (colvarbias_abf::current_bin, bin_count,
      bin_num; colvar_grid::current_bin_flat_bound, value_to_bin_scalar_bound, address): the bin of the current values
-     with every index brought into the grid (periodic: C++ remainder, then clipped to [0, nx-1]), its flat address, the
+     with every index brought into the grid (periodic: C++ remainder, made non-negative by adding nx -- the wrapped bin --,
+     then clipped to [0, nx-1]), its flat address, the
      count stored there (also local_sample_count(0)), and the number of bins *)
   Definition bound1 (c : abf_cfg) (k : nat) (b : Z) : Z :=
     let n := zget (c_nx c) k in
-    let b1 := if bget (c_periodic c) k then Z.rem b n else b in
+    let b1 := if bget (c_periodic c) k then (let r := Z.rem b n in if r <? 0 then r + n else r) else b in
     if b1 <? 0 then 0 else if n <=? b1 then n - 1 else b1.
   Definition bins_bound (c : abf_cfg) (x : vec) : idx :=
     map (fun k => bound1 c k (value_to_bin (vget (c_lower c) k) (vget (c_width c) k) (vget x k))) (seq 0 (c_nd c)).
